@@ -94,4 +94,28 @@ PROPS["C19"] = {
     "level_note": "Callbacks havocked; counting of COMPLETED results uses a ghost counter maintained by the engine; whole-run composition is only bounded.",
 }
 
+PROPS["C18"] = {
+    "contracts": ["contracts/C18_loops.py"],
+    "level": "other",
+    "extra": [{"name": "C18/bounded[limits 0..3, adversary families]", "kind": "bounded", "tiers": ("quick",),
+               "cmd": ["/venv/bin/python", "native/c18_bounded.py", "3"]},
+              {"name": "C18/bounded[limits 0..5, adversary families]", "kind": "bounded", "tiers": ("thorough",),
+               "cmd": ["/venv/bin/python", "native/c18_bounded.py", "5"]}],
+    "explanation": "Deductive part (unbounded): call-site preconditions, loop invariants and decreases clauses on the three real loops for all limits and all "
+                   "collaborator behaviours. Bounded part (labelled bounded): the statement's adversary families at limits 0..3 (0..5 thorough) on the real "
+                   "code, also used as witness finder for loop-internal obligations.",
+    "assumptions": ["generator, chaperone.fold_enhanced, worker_factory, worker.step, provider.complete(_with_tools), mitochondria.execute_tool_call, "
+                    "_trigger_apoptosis, _calculate_entropy are havocked collaborators (arbitrary value / arbitrary Exception; fold_enhanced and the two "
+                    "pure helpers assumed non-raising: fold_enhanced by C11's contract)",
+                    "ChaperoneLoop._format_error_context is used through an assumed contract (returns a str, never raises): z3's sequence solver needs ~50 s "
+                    "on its len(raw_output) > 200 guard, so its body is not under proof",
+                    "'schema-valid' for HEALED/VALID results is folded.valid, which is C11's contract on fold_enhanced"],
+    "trusted_base": ["ghost call log; per-iteration call counting at cut loops", "range() iteration bound"],
+    "level_text": "Budgets are call-site preconditions on the havocked collaborators (the k-th generator call has index <= max_retries and receives exactly the "
+                  "previous attempt's formatted error; worker_factory is called with regenerations <= max_regenerations; step index < max_steps; tool round "
+                  "index <= max_iterations; at most one final plain completion) plus loop invariants and decreases clauses — for ALL limits and adversaries, "
+                  "not limits 0..4.",
+    "level_note": "Collaborators havocked; one formatter under an assumed contract; engine and z3 trusted.",
+}
+
 NOT_APPLICABLE = {}
